@@ -275,13 +275,6 @@ func GenScenario(t *rapid.T, o GenOpts) Scenario {
 			}
 		}
 	}
-	// cache keys: an empty string key in the context is only drawn when no cache policy has a configured key
-	emptyCtxKeyOK := true
-	for _, in := range sc.Pool {
-		if in.Kind == "cache" && in.Key != "" {
-			emptyCtxKeyOK = false
-		}
-	}
 	targets := func(kind string) []int {
 		var out []int
 		for i, in := range sc.Pool {
@@ -329,9 +322,9 @@ func GenScenario(t *rapid.T, o GenOpts) Scenario {
 		case "exec":
 			st.Entry = rapid.IntRange(0, 7).Draw(t, "entry")
 			keys := []string{"", "", "", "s:k1", "s:k3", "int"}
-			if emptyCtxKeyOK {
-				keys = append(keys, "s:")
-			}
+			// an empty string supplied through the context is a string key that takes precedence, and it is no key: the
+			// cache is neither read nor written, whatever key is configured (C11: "equal, different, empty")
+			keys = append(keys, "s:")
 			if len(targets("cache")) > 0 {
 				st.CtxKey = rapid.SampledFrom(keys).Draw(t, "ctxKey")
 			}
